@@ -509,12 +509,6 @@ impl<T: Transport + 'static> SyncEngine<T> {
             None
         };
 
-        // Get set of completed files for filtering
-        let completed_paths = resume_state
-            .as_ref()
-            .map(|s| s.completed_paths())
-            .unwrap_or_default();
-
         // Start plan timing
         if let Some(ref monitor) = self.perf_monitor {
             monitor.lock().unwrap().start_plan();
@@ -531,12 +525,8 @@ impl<T: Transport + 'static> SyncEngine<T> {
         let mut replaced_links: Vec<PathBuf> = Vec::new();
 
         for file in &source_files {
-            // Skip files that are already completed (if resuming)
-            if !completed_paths.is_empty() && completed_paths.contains(&file.relative_path) {
-                tracing::debug!("Skipping completed file: {}", file.relative_path.display());
-                continue;
-            }
-
+            // (a file that a resume state lists as completed is planned like any other: the
+            // comparison with the destination, not the state file, says whether it is up to date)
             let mut task = if file.is_symlink {
                 self.plan_symlink(file, destination, &planner, checksum_db.as_ref())
                     .await?
